@@ -32,3 +32,13 @@ claim("C14", "abstract evaluation of the literal encoder over all 256 byte value
 claim("C17", "determinism lint: classification of every map-iteration body on the compile/link path, nondeterminism-source scan, sort obligations",
       "Decides that every iteration over a map or hash-ordered container in the packages producing compiler output is order-insensitive (keyed stores, monotone marking, appends sorted before use, existence tests), that no clock/random/process source is consulted there, and that files/imports/sources/local names/dependency names are sorted. This is the rule that found the map-ordered instance propagation repaired in e9e4887. Does not decide byte identity across runs as such.",
       TB, "DESIGN.md §2.3, §3 C17")
+
+claim("C02", "must-call analysis of the blocking analysis arms, fixpoint-shape and pipeline-order checks, template/token checks of the resume protocol, def-use of the saved frame, escape-scope table",
+      "Decides that every suspension source reaches markBlocking (or the callee registration resolved by the fixpoint) under the right guard, that the fixpoint and the return/continue propagation run over all packages before compilation, that the resume protocol template is complete, that every JS local is saved and restored, that Blocking implies Flattened and the translator consults the flags in every resumable construct, and that escape boxing looks for captured variables in the right scopes. Does not decide that a flattened function computes what the direct form computes.",
+      TB, "DESIGN.md §3 C02")
+claim("C04", "must-call/never-prune checks of the instance collector, key-completeness of instance identity against the Instance struct, who-may-read rule for raw types.Info accessors",
+      "Decides that instance collection cannot skip code, iterates to exhaustion before analysis, that lookup/equality/hash use every field of Instance and ids are insertion indices shared by declaration and reference, that every instance is emitted and analysed separately, that unsubstituted reads of types.Info happen only in the substitution wrappers, and that a leftover type parameter fail-stops. Does not decide the substitution itself.",
+      TB, "DESIGN.md §3 C04")
+claim("C05", "root/must-call table, effect-kind exhaustiveness of the initialiser side-effect test, lexical scoping of Decl code-field assignments in CollectDCEDeps, sibling agreement of filter names",
+      "Decides that entry points, effectful or possibly-panicking initialisers and linkname implementations are roots, that every reference-producing helper records its dependency first, that translated code fields are filled inside the dependency collector, that names and dependencies share getFilters and the selector's bookkeeping is symmetric, that only alive decls are emitted with all fields, and that prelude references into packages are rooted or guarded. Does not decide completeness of dependencies for every program.",
+      TB, "DESIGN.md §3 C05")
